@@ -4,7 +4,7 @@
    pest/src/stack.rs; `None` stands for a Rust panic (usize underflow, bad drain range). *)
 From Coq Require Import List Arith.
 Import ListNotations.
-Require Import PV.Stack.Model PV.Stack.Proofs PV.Stack.Top.
+Require Import PV.Stack.Model PV.Stack.Proofs PV.Stack.Top PV.Stack.Laws.
 
 (* For EVERY finite history over push/pop/peek/snapshot/clear_snapshot/restore:
    the implementation model never panics (result is Some), and the trace
@@ -30,4 +30,39 @@ Example C11_example_trace :
         ([],None)].
 Proof. vm_compute. reflexivity. Qed.
 
+(* Transaction laws at every reachable state and nesting depth (the way ParserState uses the stack):
+   after any history h, `snapshot; body; restore` with a well-bracketed body (bal 0 body = Some 0:
+   the body never clears or restores a snapshot it did not take and closes its own) never panics and
+   is invisible to every continuation k - the trace of k is the one produced straight after h. *)
+Definition C11_checkpoint_restore_statement : Prop :=
+  forall (T : Type) (h body k : list (op T)),
+    bal 0 body = Some 0 ->
+    exists t0 t1 tk,
+      run_impl (empty T) (h ++ k) = Some (t0 ++ tk) /\
+      run_impl (empty T) (h ++ (Snapshot :: body ++ [Restore]) ++ k) = Some (t0 ++ t1 ++ tk) /\
+      length t0 = length h /\ length t1 = S (S (length body)).
+
+Theorem C11_checkpoint_restore : C11_checkpoint_restore_statement.
+Proof. exact checkpoint_restore_transparent. Qed.
+
+(* `snapshot; body; clear_snapshot` never panics and leaves the enclosing saved copies untouched. *)
+Definition C11_checkpoint_clear_statement : Prop :=
+  forall (T : Type) (h body : list (op T)),
+    bal 0 body = Some 0 ->
+    snaps (exec_spec (sempty T) (h ++ Snapshot :: body ++ [Clear])) = snaps (exec_spec (sempty T) h) /\
+    exists t, run_impl (empty T) (h ++ Snapshot :: body ++ [Clear]) = Some t /\
+              length t = length h + S (S (length body)).
+
+Theorem C11_checkpoint_clear : C11_checkpoint_clear_statement.
+Proof. exact checkpoint_clear_keeps_outer. Qed.
+
+(* Non-vacuity: a body with an inner snapshot, pops below both snapshot lines and a re-push is
+   well bracketed; a body that restores the enclosing snapshot is not. *)
+Example C11_bal_example :
+  bal 0 [Pop; Snapshot; Pop; Pop; Push 9; Restore; Push 4 : op nat] = Some 0 /\
+  bal 0 [Pop; Restore : op nat] = None.
+Proof. split; reflexivity. Qed.
+
 Print Assumptions C11_stack_transactional.
+Print Assumptions C11_checkpoint_restore.
+Print Assumptions C11_checkpoint_clear.
